@@ -353,6 +353,17 @@ func setup(root string, sc *Scenario) error {
 			return err
 		}
 	}
+	if sc.MainPkg {
+		es, _ := os.ReadDir(filepath.Join(root, "src"))
+		for _, e := range es {
+			if p := filepath.Join(root, "src", e.Name()); strings.HasSuffix(p, ".go") {
+				if b, err := os.ReadFile(p); err == nil {
+					os.WriteFile(p, []byte(asPkg(sc, string(b))), 0o644)
+				}
+			}
+		}
+		os.WriteFile(filepath.Join(root, "src", "main.go"), []byte("package main\n\nfunc main() {}\n"), 0o644)
+	}
 	if sc.IncompleteMod {
 		// src needs example.com/dep1, which needs example.com/dep2; the main
 		// go.mod replaces both but requires only dep1: "updates to go.mod needed"
@@ -373,6 +384,15 @@ func setup(root string, sc *Scenario) error {
 		}
 	}
 	return nil
+}
+
+// asPkg renders a file of the source package under the package name the
+// scenario gives it.
+func asPkg(sc *Scenario, src string) string {
+	if sc.MainPkg && strings.HasPrefix(src, "package src\n") {
+		return "package main\n" + strings.TrimPrefix(src, "package src\n")
+	}
+	return src
 }
 
 // model of the scenario's world, kept by the driver
@@ -445,6 +465,9 @@ func (shared *Runner) Run(sc *Scenario, id string) ([]Finding, *Stats, error) {
 			pkg := sc.Place.Pkg
 			if pkg == "" {
 				pkg = "src"
+				if sc.MainPkg {
+					pkg = "main"
+				}
 			}
 			if step.Damage == "readonly" {
 				// not damage to the bytes: the generated file is kept read-only (0444)
@@ -488,7 +511,7 @@ func (shared *Runner) Run(sc *Scenario, id string) ([]Finding, *Stats, error) {
 			} else {
 				w.version++
 			}
-			os.WriteFile(filepath.Join(srcDir, "src.go"), []byte(srcVersion(w.version, w.aliased)), 0o644)
+			os.WriteFile(filepath.Join(srcDir, "src.go"), []byte(asPkg(sc, srcVersion(w.version, w.aliased))), 0o644)
 			if w.prior == "own" {
 				w.prior = "stale"
 			}
@@ -502,7 +525,7 @@ func (shared *Runner) Run(sc *Scenario, id string) ([]Finding, *Stats, error) {
 				tr("step %d: delete -out", i)
 			}
 		case StepBreak:
-			os.WriteFile(filepath.Join(srcDir, "zz_broken.go"), []byte("package src\n\nfunc oops( {\n"), 0o644)
+			os.WriteFile(filepath.Join(srcDir, "zz_broken.go"), []byte(asPkg(sc, "package src\n\nfunc oops( {\n")), 0o644)
 			w.broken = true
 			w.touched = true
 			tr("step %d: source package gets a syntax error", i)
@@ -529,10 +552,16 @@ func (r *Runner) runStep(sc *Scenario, i int, step Step, w *world, M, srcDir, ou
 	if pl.Pkg != "" && useOut {
 		base = append(base, "-pkg", pl.Pkg)
 	}
-	tail := []string{"."}
+	srcArg := "."
+	cwdIn := func(root string) string { return filepath.Join(root, "src") }
+	if sc.FromRoot {
+		srcArg = "./src"
+		cwdIn = func(root string) string { return root }
+	}
+	tail := []string{srcArg}
 	tail = append(tail, step.Names...)
 	if step.NoArgs {
-		tail = []string{"."}
+		tail = []string{srcArg}
 	}
 	st.Priors[w.prior]++
 
@@ -551,7 +580,7 @@ func (r *Runner) runStep(sc *Scenario, i int, step Step, w *world, M, srcDir, ou
 	}
 	refPre := snapshot(refRoot)
 	refArgs := append(append([]string(nil), base...), tail...)
-	ref := r.runMoq(filepath.Join(refRoot, "src"), refArgs, nil, tmp)
+	ref := r.runMoq(cwdIn(refRoot), refArgs, nil, tmp)
 	st.MoqRuns++
 	refPost := snapshot(refRoot)
 	refOK := ref.Exit == 0
@@ -596,10 +625,10 @@ func (r *Runner) runStep(sc *Scenario, i int, step Step, w *world, M, srcDir, ou
 		pre := snapshot(M)
 		var act procResult
 		if step.Fault.Action == "devfull" {
-			act = r.runMoqStdout(srcDir, refArgs, "/dev/full", tmp)
+			act = r.runMoqStdout(cwdIn(M), refArgs, "/dev/full", tmp)
 			act.Log = append(act.Log, simos.LogEntry{Prim: "real-stdout", Path: "/dev/full", Fault: "devfull:ENOSPC"})
 		} else {
-			act = r.runMoq(srcDir, refArgs, step.Fault, tmp)
+			act = r.runMoq(cwdIn(M), refArgs, step.Fault, tmp)
 		}
 		st.MoqRuns++
 		post := snapshot(M)
@@ -634,6 +663,9 @@ func (r *Runner) runStep(sc *Scenario, i int, step Step, w *world, M, srcDir, ou
 	// ---- the actual run
 	args := append([]string(nil), base...)
 	outArg := pl.Out
+	if sc.FromRoot {
+		outArg = outRel
+	}
 	if pl.Abs {
 		outArg = outAbs
 	}
@@ -643,7 +675,7 @@ func (r *Runner) runStep(sc *Scenario, i int, step Step, w *world, M, srcDir, ou
 	}
 	args = append(args, tail...)
 	pre := snapshot(M)
-	act := r.runMoq(srcDir, args, step.Fault, tmp)
+	act := r.runMoq(cwdIn(M), args, step.Fault, tmp)
 	st.MoqRuns++
 	post := snapshot(M)
 	fired := firedFaults(act.Log)
@@ -718,12 +750,12 @@ func (r *Runner) runStep(sc *Scenario, i int, step Step, w *world, M, srcDir, ou
 			// fine if the old -out file was what broke it and moq has stopped
 			// letting that file block its own regeneration (then the result must
 			// be what the command prints with the old file out of the way)
-			if !mustFail && !r.equalsRefWithoutPrior(step, preExists, preIsDir, refRoot, outRel, refArgs, tmp, postBytes, st) {
+			if !mustFail && !r.equalsRefWithoutPrior(step, preExists, preIsDir, refRoot, cwdIn(refRoot), outRel, refArgs, tmp, postBytes, st) {
 				add(i, "C17", "out-mode-succeeds-where-stdout-mode-fails", "", "%s exited 0 but the same command without -out fails (%s), also with the old file removed, or the file differs from that output", cmdline, firstLine(ref.Stderr))
 			}
 		} else if !postExists {
 			add(i, "C17", "success-without-file", "", "%s exited 0 but %s does not exist", cmdline, pl.Out)
-		} else if !bytes.Equal(postBytes, ref.Stdout) && !r.equalsRefWithoutPrior(step, preExists, preIsDir, refRoot, outRel, refArgs, tmp, postBytes, st) {
+		} else if !bytes.Equal(postBytes, ref.Stdout) && !r.equalsRefWithoutPrior(step, preExists, preIsDir, refRoot, cwdIn(refRoot), outRel, refArgs, tmp, postBytes, st) {
 			prop, class := "C17", "success-incomplete-or-different-file"
 			if step.Rm && w.prior != "absent" {
 				prop, class = "C15", "rm-result-depends-on-prior-content"
@@ -787,14 +819,14 @@ func (r *Runner) runStep(sc *Scenario, i int, step Step, w *world, M, srcDir, ou
 // -rm case); a file that differs from the stdout-mode reference taken with the
 // old file in place is still complete and correct if it equals the reference
 // taken with the old file removed.
-func (r *Runner) equalsRefWithoutPrior(step Step, preExists, preIsDir bool, refRoot, outRel string, refArgs []string, tmp string, got []byte, st *Stats) bool {
+func (r *Runner) equalsRefWithoutPrior(step Step, preExists, preIsDir bool, refRoot, refCwd, outRel string, refArgs []string, tmp string, got []byte, st *Stats) bool {
 	if step.Rm || !preExists || preIsDir {
 		return false
 	}
 	if err := os.Remove(filepath.Join(refRoot, outRel)); err != nil {
 		return false
 	}
-	ref2 := r.runMoq(filepath.Join(refRoot, "src"), refArgs, nil, tmp)
+	ref2 := r.runMoq(refCwd, refArgs, nil, tmp)
 	st.MoqRuns++
 	return ref2.Exit == 0 && bytes.Equal(got, ref2.Stdout)
 }
